@@ -2343,6 +2343,13 @@ class SEVM:
         to: BV = uint160(ex.st.pop())
         fund: BV = ZERO if op in [OP_STATICCALL, OP_DELEGATECALL] else ex.st.popi()
 
+        # a value-bearing CALL is a state modification: not allowed in a static context
+        if op == OP_CALL and ex.message().is_static:
+            if fund.is_symbolic:
+                raise NotConcreteError("symbolic CALL value in a static context")
+            if fund.value != 0:
+                raise WriteInStaticContext(ex.context_str())
+
         arg_loc: int = ex.mloc(check_size=False)
         arg_size: int = ex.int_of(ex.st.pop(), "symbolic CALL input data size")
 
@@ -2374,7 +2381,6 @@ class SEVM:
         def send_callvalue(condition: BoolRef | None = None) -> None:
             # no balance update for CALLCODE which transfers to itself
             if op == OP_CALL:
-                # TODO: revert if context is static
                 # NOTE: we cannot use `to_alias` here because it could be None
                 self.transfer_value(ex, pranked_caller, to, fund, condition)
 
